@@ -12,7 +12,7 @@ from fractions import Fraction
 sys.path.insert(0, os.path.dirname(os.path.dirname(os.path.abspath(__file__))))
 
 from mc import runner, fakegame  # noqa: E402
-from mc.driver import MachineDriver, r6  # noqa: E402
+from mc.driver import MachineDriver, r6, simple_state  # noqa: E402
 from mc.explore import bfs  # noqa: E402
 
 EPS = 1e-6
@@ -257,7 +257,8 @@ class CreditsDriver(MachineDriver):
                 None if self.frac_at is None else r6(self.frac_at - now),
                 None if self.exp_at is None else r6(self.exp_at - now), self.rel_timers(), self.modes_fp(), self.task_fp(),
                 self.timer_ambiguous, (g.player.ball if g.player else None, g.ending) if g else None,
-                self.m.playfield.balls)
+                self.m.playfield.balls,
+                simple_state(self.m.modes["credits"], exclude=("earnings", "pricing_table", "credits_config", "data_manager")))
 
     def observe(self):
         return {"config": self.key, "units": self.m.variables.get_machine_var("credit_units"),
